@@ -58,6 +58,43 @@ static std::string slurp(const std::string &p) {
     return o;
 }
 
+// Private partner graphs for the comparison operations: one pair per thread, built by the main thread BEFORE the
+// reader threads start (so building them is not part of the explored behaviour).  `same`: the value of the shared
+// graph built in the opposite insertion order (and, undirected, with every pair named the other way round);
+// `diff`: the same size and edge count with one pair (or, when every pair exists, one value) replaced.
+template <class G> struct Partners {
+    static std::vector<G> &same() { static std::vector<G> v; return v; }
+    static std::vector<G> &diff() { static std::vector<G> v; return v; }
+    static int slot(int tid) { return tid == 99 ? 0 : tid + 1; }
+};
+template <class G> G rebuiltInOtherOrder(const G &g, bool alter) {
+    using T = Tr<G>;
+    std::vector<std::pair<VertexIndex, VertexIndex>> es;
+    for (auto e : g.edges()) es.push_back(e);
+    std::reverse(es.begin(), es.end());
+    G h((VertexIndex)g.getSize());
+    std::pair<VertexIndex, VertexIndex> spare{0, 0};
+    bool haveSpare = false;
+    for (VertexIndex i = 0; i < g.getSize() && !haveSpare; ++i)
+        for (VertexIndex j = T::directed ? 0 : i; j < g.getSize() && !haveSpare; ++j)
+            if (!g.hasEdge(i, j)) { spare = {i, j}; haveSpare = true; }
+    for (size_t k = 0; k < es.size(); ++k) {
+        VertexIndex a = es[k].first, b = es[k].second, x = a, y = b;
+        if (!T::directed) std::swap(x, y);
+        bool altered = alter && k + 1 == es.size();
+        if (altered && haveSpare) { x = spare.first; y = spare.second; }
+        if constexpr (T::fam == MULTI) h.addMultiedge(x, y, g.getEdgeMultiplicity(a, b) + ((altered && !haveSpare) ? 1 : 0));
+        else if constexpr (T::fam == WEIGHTED) h.addEdge(x, y, g.getEdgeWeight(a, b) + ((altered && !haveSpare) ? 1.0 : 0.0));
+        else if constexpr (T::labelled) h.addEdge(x, y, (altered && !haveSpare) ? LabelAlpha<typename T::Label>::value(3) : g.getEdgeLabel(a, b));
+        else h.addEdge(x, y);
+    }
+    return h;
+}
+template <class G> void preparePartners(const G &sharedValue, int threads) {
+    Partners<G>::same().assign(threads + 1, rebuiltInOtherOrder(sharedValue, false));
+    Partners<G>::diff().assign(threads + 1, rebuiltInOtherOrder(sharedValue, true));
+}
+
 // ----------------------------------------------------------------------------- the const alphabet
 template <class G> struct ConstOp {
     std::string name;
@@ -92,6 +129,14 @@ template <class G> std::vector<ConstOp<G>> constOps() {
     add("operator== vs private copy", true, [](const G &g, int) {
         G c(g);
         return std::to_string((int)(g == c)) + std::to_string((int)(c == g)) + std::to_string((int)(g != c));
+    });
+    add("operator== vs equal graph built in another order", true, [](const G &g, int tid) {
+        const G &o = Partners<G>::same()[Partners<G>::slot(tid)];
+        return std::to_string((int)(g == o)) + std::to_string((int)(o == g)) + std::to_string((int)(g != o));
+    });
+    add("operator== vs different graph of the same size and edge count", true, [](const G &g, int tid) {
+        const G &o = Partners<G>::diff()[Partners<G>::slot(tid)];
+        return std::to_string((int)(g == o)) + std::to_string((int)(o == g)) + std::to_string((int)(g != o));
     });
     add("operator== vs itself", false, [](const G &g, int) { return std::to_string((int)(g == g)); });
     add("copy construction", true, [](const G &g, int) {
@@ -343,6 +388,7 @@ template <class G> struct Harness {
     // runs one schedule; returns the recorded points
     std::vector<Point> run(int shape, const std::vector<int> &opIdx, const std::vector<int> &prefix, const std::vector<std::string> &baseline, const std::string &freshKey, bool freeRunning) {
         G shared = makeShape<G>(shape); // a FRESH object per execution: no thread has ever touched it
+        preparePartners(shared, (int)opIdx.size());
         Exec<G> ex;
         ex.shared = &shared;
         ex.ops = &ops;
@@ -417,7 +463,7 @@ template <class G> struct Harness {
 
     bool seqOnly = false, smallCore = false;
     static bool inSmallCore(const std::string &n) {
-        static const std::set<std::string> k = {"key(all getters)", "edges()", "getAdjacencyMatrix", "operator== vs private copy", "getInDegrees", "getDegrees", "getReversedGraph", "getDirectedGraph", "getSubgraph",
+        static const std::set<std::string> k = {"key(all getters)", "edges()", "getAdjacencyMatrix", "operator== vs private copy", "operator== vs equal graph built in another order", "getInDegrees", "getDegrees", "getReversedGraph", "getDirectedGraph", "getSubgraph",
                                                 "findAllVertexPredecessors", "writeTextEdgeList", "getWeightMatrix+total", "findGeodesicsDijkstra", "getEdgeMultiplicity+total", "asLabeledGraph searches"};
         return k.count(n) != 0;
     }
@@ -427,6 +473,7 @@ template <class G> struct Harness {
             if (!shapesWanted.empty() && !shapesWanted.count(shape)) continue;
             // baseline on ANOTHER, identically built object; never on the shared one
             G base = makeShape<G>(shape);
+            preparePartners(base, 0);
             std::vector<std::string> baseline;
             for (auto &op : ops) baseline.push_back(op.fn(base, 99));
             std::string freshKey = keyOf(makeShape<G>(shape), false);
@@ -476,6 +523,7 @@ template <class G> int runOne(const std::string &name, const Args &args) {
             for (auto &t : split(sc.substr(1, sc.size() - 2), ',')) sched.push_back(atoi(t.c_str()));
         int shape = (int)args.getInt("shape", 0);
         G base = makeShape<G>(shape);
+        preparePartners(base, 0);
         std::vector<std::string> baseline;
         for (auto &op : h.ops) baseline.push_back(op.fn(base, 99));
         for (int round = 0; round < 2; ++round) h.run(shape, opIdx, sched, baseline, keyOf(makeShape<G>(shape), false), false);
